@@ -592,8 +592,86 @@ func c17Search(start int, dotu bool, lo, hi, depth int) Scenario {
 	}}
 }
 
+// c17RefusedOddCreates: creates of kinds the property does not define an effect for
+// (named pipes, sockets, devices, combinations of kind bits) under free and occupied
+// names, with every open mode. Whatever the server makes of them, one answered with
+// Rerror leaves the tree as it was.
+func c17RefusedOddCreates(dotu bool) Scenario {
+	name := fmt.Sprintf("creates of special kinds under free and occupied names: refused ones change nothing dotu=%v", dotu)
+	return Scenario{Name: name, Run: func(rc *RunCtx) *Result {
+		res := &Result{Exhaustive: true}
+		perms := []uint32{go9p.DMNAMEDPIPE | 0644, go9p.DMSOCKET | 0644, go9p.DMDEVICE | 0644, go9p.DMNAMEDPIPE | go9p.DMDIR | 0755, go9p.DMSYMLINK | go9p.DMNAMEDPIPE | 0777, go9p.DMLINK | go9p.DMNAMEDPIPE | 0644, go9p.DMEXCL | 0644, go9p.DMAPPEND | go9p.DMNAMEDPIPE | 0600}
+		names := []string{"free", "a", "d", "e", "dang", "ld", "sl"}
+		modes := []uint8{0, 1, 2, 1 | 16, 0 | 64}
+		exts := []string{"", "c 1 3", "a"}
+		seen := map[string]bool{}
+		for _, perm := range perms {
+			for _, nm := range names {
+				for _, mode := range modes {
+					for _, ext := range exts {
+						if ext != "" && (!dotu || mode != 0) {
+							continue
+						}
+						base, root := scratchDir("c17o")
+						os.MkdirAll(filepath.Join(root, "d"), 0o755)
+						os.Mkdir(filepath.Join(root, "e"), 0o755)
+						os.WriteFile(filepath.Join(root, "a"), []byte("contents of a"), 0o644)
+						os.WriteFile(filepath.Join(root, "d", "c"), []byte("c"), 0o644)
+						os.Symlink("nowhere", filepath.Join(root, "dang"))
+						os.Symlink("d", filepath.Join(root, "ld"))
+						os.Symlink("a", filepath.Join(root, "sl"))
+						var bad string
+						body := func() {
+							h := newUfsH(root, 8216, dotu)
+							cl := h.Connect()
+							ver := "9P2000"
+							if dotu {
+								ver = "9P2000.u"
+							}
+							cl.Version(8216, ver)
+							cl.Rpc(tattach(1, 0, wire.NOFID, "", uint32(os.Geteuid()), dotu))
+							cl.Rpc(twalk(2, 0, 1))
+							before := c17Snapshot(root, map[string]bool{})
+							r := cl.Rpc(&wire.Msg{Type: wire.Tcreate, Tag: 3, Fid: 1, Name: nm, Perm: perm, Mode: mode, Ext: ext})
+							res.Evals++
+							if r == nil {
+								bad = "no reply"
+								return
+							}
+							if r.Type == wire.Rerror {
+								res.Nontrivial++
+								if after := c17Snapshot(root, map[string]bool{}); after != before {
+									bad = fmt.Sprintf("Tcreate name=%q perm=%#x mode=%d ext=%q was answered %s but changed the tree:\nbefore:\n%s\nafter:\n%s", nm, perm, mode, ext, r, before, after)
+								}
+							}
+						}
+						x := vs.Run(nil, body, vs.Options{Horizon: 100000000})
+						os.RemoveAll(base)
+						if len(x.Panics) > 0 {
+							bad = "panic: " + x.Panics[0].Value
+						}
+						if bad != "" {
+							sig := fmt.Sprintf("C17/tree-changed-by-refused-create/perm-%#x", perm&0xFF000000)
+							if strings.HasPrefix(bad, "panic") || bad == "no reply" {
+								sig = "C17/odd-create/" + sigWords(bad)
+							}
+							if !seen[sig] && len(res.Findings) < 8 {
+								seen[sig] = true
+								res.Findings = append(res.Findings, Finding{Sig: sig, Msg: bad})
+							}
+						}
+					}
+				}
+			}
+		}
+		res.Samples = append(res.Samples, fmt.Sprintf("%d kind-bit combinations x %d names (free, file, directory, empty directory, dangling link, link to a directory, link to a file) x %d open modes; %d were refused and compared", len(perms), len(names), len(modes), res.Nontrivial))
+		return res
+	}}
+}
+
 func c17Scenarios(tier string) []Scenario {
 	var out []Scenario
+	out = append(out, c17RefusedOddCreates(false), c17RefusedOddCreates(true))
 	depth := 2
 	starts := []int{0}
 	if tier == "thorough" {
